@@ -215,7 +215,12 @@ def alphabet(m: Model):
         for cols in itertools.combinations(range(L), r):
             ops.append(("take_positions", cols, False))
             ops.append(("take_positions", cols, True))
+    if L >= 1:
+        ops.append(("take_positions", (-1,), False))  # negative indices count from the end (negate=False only: what
+        ops.append(("take_positions", (-L,), False))  # negate means for a negative index is not stated)
     if L >= 2:
+        ops.append(("take_positions", (-2, -1), False))
+        ops.append(("take_positions", (0, -1), False))
         ops.append(("take_positions", (L - 1, 0), False))  # out of order
         ops.append(("take_positions", (0, 0), False))  # repeated
     for r in range(1, len(names) + 1):
